@@ -109,6 +109,7 @@ def explore_cases(report: Report, group: str, fn, cases, chunk=32, workers=None,
     nt = set()
     outs = Counter()
     tags = Counter()
+    counts = Counter()
     n = 0
     samples = [jsonable(c) for c in cases_shuffled[:nsamples]]
     jobs = [(key, ch) for ch in _chunks(cases_shuffled, chunk)]
@@ -131,6 +132,8 @@ def explore_cases(report: Report, group: str, fn, cases, chunk=32, workers=None,
             outs[r.get('out', '')] += 1
             for t in r.get('tags', ()):
                 tags[t] += 1
+            for k2, n2 in (r.get('counts') or {}).items():
+                counts[k2] += n2
     g = report.groups.setdefault(group, dict(kind='E2', evaluations=0, distinct_nontrivial=0, outcomes={},
                                              tags={}, samples=[], rule=rule, exhaustive=exhaustive, space=space))
     g['evaluations'] += n
@@ -140,6 +143,9 @@ def explore_cases(report: Report, group: str, fn, cases, chunk=32, workers=None,
     for k2, v2 in tags.items():
         g['tags'][k2] = g['tags'].get(k2, 0) + v2
     g['samples'].extend(samples)
+    for k2, v2 in counts.items():
+        g.setdefault('counts', {})
+        g['counts'][k2] = g['counts'].get(k2, 0) + v2
     return g
 
 
